@@ -122,15 +122,18 @@ def collect_variants(prop):
 def run_variant(prop, v):
     if "status" in v:
         return v
-    d = scratch_verif()
-    rc, out = run_checker(prop, "quick", d, v["overlay"])
-    shutil.rmtree(d, ignore_errors=True)
+    for attempt in range(3):
+        d = scratch_verif()
+        rc, out = run_checker(prop, "quick", d, v["overlay"])
+        shutil.rmtree(d, ignore_errors=True)
+        if rc >= 0 and out.strip():
+            break  # a checker process that was killed from outside (negative rc / no output) says nothing about the variant: retry
     keys = re.findall(r"^(?:VIOLATED|UNDECIDED|ANCHOR-LOST): \[(.*)\] ?\S*$", out, re.M)
     if rc == 0:
         v["status"] = "SURVIVED"
     elif keys == ["load"] or (not keys and rc != 1):
         v["status"] = "invalid"
-        v["note"] = "variant does not type-check / checker error: " + out.strip().splitlines()[-1][:200]
+        v["note"] = "variant does not type-check / checker error: " + (out.strip().splitlines() or ["no output (rc=%d)" % rc])[-1][:200]
     else:
         v["status"] = "killed"
         v["caught_by"] = keys[:4]
